@@ -90,12 +90,12 @@ PROPS = {
     "C06": dict(
         title="reim/cplx FFT and iFFT equal the mathematical transform, in documented order",
         module="SpqProofs.Properties.C06",
-        extra_modules=["SpqProofs.Properties.Numerics"],
+        extra_modules=["SpqProofs.Properties.Numerics", "SpqProofs.Properties.C06Err"],
         streams=dict(quick=[("ff_fft", "plain"), ("ff_cfft", "plain"), ("ff_crafted", "plain"), ("ff_ccrafted", "plain"), ("ff_tables", "plain")],
                      thorough=[("ff_fft", "plain"), ("ff_cfft", "plain"), ("ff_crafted", "plain"), ("ff_ccrafted", "plain"), ("ff_tables", "plain")]),
         proved="exact arithmetic, every m = 2^k (all k), reim and cplx layouts, reference and FMA/assembly schedules alike (the same network code as the bit-exact model, instantiated with a commutative ring with I^2=-1, zeta^m=I and the exact table = transcription of the fill_* functions): forward output j = evaluation of the input polynomial at zeta^(1+4*bitrev_k(j)); the inverse applied to exact evaluations returns m times the coefficients; ifft o fft = m.id for any pairing of implementations",
-        not_proved="a-priori rounding bound fft_err (8*log2(2m)*2^-53, staged: checked on every run by the __float128 oracle, observed max 9% of the bound; false as stated in the underflow range, stream class 'tiny' is excluded from the oracle); libm cos/sin accuracy is measured (<= 3.11 * 2^-53 on all 571288 table entries), not proved; the hand-written assembly is tied by bit-exact streams only; read-only tables: covered by C18/C15",
-        level_text="Lean 4 theorems for the exact-arithmetic FFT/iFFT network of every size and both layouts (partial: rounding bound staged); bit-exact differential streams against reference C, AVX2/FMA C and the assembly leaves for every m = 1..65536 with a __float128 evaluation oracle and the property's 2-norm bound; real drivers also run on crafted small-dyadic tables (signed-zero sensitivity); all table entries checked against quad-precision cos/sin",
+        not_proved="rounding bound: PROVED for the reim layout, forward and inverse, reference and FMA/assembly schedules, every m = 2^k (C06Err: reim_fft_err / reim_ifft_err: sum |out_j - exact_j|^2 <= ((1+8u)^k - 1)^2 sum |exact_j|^2, and <= (8(k+1)u)^2 for k <= 16) under two explicit hypotheses: stored twiddles within 3.5*2^-53 of the exact roots (libm cos/sin accuracy is measured on every run, <= 3.11*2^-53 on all 571288 entries, not proved) and no overflow/underflow in any intermediate operation (the flagged run; the statement is false in the underflow range, stream class 'tiny'); the cplx-layout rounding bound is not proved (exact-arithmetic theorems only; bound checked on every run by the __float128 oracle, observed max 9% of the bound); the hand-written assembly is tied by bit-exact streams only; read-only tables: covered by C18/C15",
+        level_text="Lean 4 theorems for the exact-arithmetic FFT/iFFT network of every size and both layouts, and the binary64 rounding bound of the property for the reim forward and inverse transforms (cplx rounding bound: measured only); bit-exact differential streams against reference C, AVX2/FMA C and the assembly leaves for every m = 1..65536 with a __float128 evaluation oracle and the property's 2-norm bound; real drivers also run on crafted small-dyadic tables (signed-zero sensitivity); all table entries checked against quad-precision cos/sin",
         design_ref="DESIGN.md §5 C06",
     ),
     "C07": dict(
